@@ -137,6 +137,8 @@ DPLACES = {"default": "", "dir": '#[ts(export_to = "sub/")]', "file": '#[ts(expo
            "escape": '#[ts(export_to = "../esc§/D§.ts")]', "dotted": '#[ts(export_to = "x.y/d.ts/")]', "same_as_root": '#[ts(export_to = "both§.ts")]',
            "same_dotdot": '#[ts(export_to = "sub§/../both§.ts")]',
            # export_to given by an expression (a constant, a function call) instead of a literal
+           # the TypeScript name given by an expression (not a literal): the file is named after it
+           "renamed_expr": '#[ts(rename = concat!("Ren", "D§"))]', "renamed_expr_dir": '#[ts(rename = concat!("Ren", "D§"), export_to = "sub/")]',
            "expr_dir": "#[ts(export_to = EXPR_DIR)]", "expr_file": '#[ts(export_to = expr_file("D§"))]'}
 # what the expressions above evaluate to (the constant / function are in the corpus' extra prelude)
 EXPR_PLACES = {"expr_dir": "viaexpr/", "expr_file": "viaexpr/file_D§.ts"}
@@ -200,7 +202,7 @@ def export_cases(tier, esm, stats, sandbox, twice=False):
     holds a few unrelated files.  -> (units, observations, {unit: result}, {unit: tree before})"""
     cfgp = os.path.join(vlib.TMP, "graphs-cfg.json")
     q = tier == "quick"
-    dplaces = list(DPLACES) if not q else ["default", "dir", "file", "escape", "same_as_root", "same_dotdot", "expr_dir", "expr_file"]
+    dplaces = list(DPLACES) if not q else ["default", "dir", "file", "escape", "same_as_root", "same_dotdot", "expr_dir", "expr_file", "renamed_expr", "renamed_expr_dir"]
     rplaces = list(RPLACES) if not q else ["default", "nested_file", "escape"]
     dirs = list(DIRS) if not q else ["relative", "absolute"]
     json.dump({"edges": list(EDGES), "dplaces": dplaces, "rplaces": rplaces, "dirs": dirs, "placed": PLACED if not q else PLACED[:4]}, open(cfgp, "w"))
